@@ -14,7 +14,13 @@
    name is exhausted doublestar v4 accepts only the pattern tails "", "*",
    "**" and "/**" (isZeroLengthPattern), so "a***", "a/**/**" and "a*/**" do not
    match "a" although "a**", "a/**" and "*/**" do; these degenerate tails are
-   left outside the grammar (see the C14 report).
+   left outside the grammar (see the C14 report). (iv) A component with a
+   class that admits '/' contains no '*' ([class_star_free]): doublestar keeps
+   a single backtrack point per star, which is complete as long as nothing but
+   a literal '/' consumes a separator; once a class can consume it, the
+   outcome depends on where the class happens to be tried ("*[!a]*" does not
+   match ".hg/a-c"), and the doublestar reading below is exact only without
+   stars around such a class.
 
    [glob_match strict] has two readings:
      strict = true   the DOCUMENTED meaning: '*', '?' and classes never match
@@ -242,6 +248,15 @@ Definition class_admits_slash (a : atom) : bool :=
 
 Definition comp_admits_slash (c : comp) : bool :=
   match c with CDouble => false | CSeg atoms => existsb class_admits_slash atoms end.
+
+(* harness restriction (iv): no '*' next to a class that admits '/' *)
+Definition class_star_free (cs : list comp) : bool :=
+  forallb (fun c => match c with
+                    | CDouble => true
+                    | CSeg atoms =>
+                      negb (existsb class_admits_slash atoms
+                            && existsb (fun a => match a with AStar => true | _ => false end) atoms)
+                    end) cs.
 
 (* ---------- ignorePattern / newIgnorePattern ---------- *)
 Record ipat := {
